@@ -233,7 +233,10 @@ async fn run_actor(
                 let verif_id = verif::request_id(&request);
                 let response = handle_throttle(&mut store_type, request);
                 #[cfg(feature = "verif")]
-                verif::log(format!("proc {verif_id} -> {}", verif::show_response(&response)));
+                verif::log(format!(
+                    "proc {verif_id} -> {}",
+                    verif::show_response(&response)
+                ));
                 // Ignore send errors - receiver may have timed out
                 let _ = response_tx.send(response);
             }
@@ -280,7 +283,9 @@ pub mod verif {
 
     /// Take (and clear) the event log.
     pub fn take_log() -> Vec<String> {
-        LOG.lock().map(|mut l| std::mem::take(&mut *l)).unwrap_or_default()
+        LOG.lock()
+            .map(|mut l| std::mem::take(&mut *l))
+            .unwrap_or_default()
     }
 
     pub fn request_id(r: &ThrottleRequest) -> String {
